@@ -241,3 +241,36 @@ func ZZ_C01_PoolNoListener() {
 	})
 	zzAccounted(s, "pool-no-listener")
 }
+
+// ZZ_C13_FailedLoadCostFn: a cache built with a cost function whose loader fails. The loader's error reaches the
+// caller as that error (the cost function is a user function defined on loaded values; it is not applied to the zero
+// value a failed load comes with - here it panics on it, as a function that dereferences its argument would), the
+// failure is not cached, and the next Get runs the loader again and weighs its value with the cost function.
+func ZZ_C13_FailedLoadCostFn() {
+	vfSetHashMode(1)
+	StripedBufferSize = 1
+	costCalls := 0
+	s := NewStore[uint64, uint64](&StoreOptions[uint64, uint64]{MaxSize: 10, Cost: func(v uint64) int64 {
+		costCalls++
+		if v == 0 {
+			panic("cost function applied to the zero value of a failed load")
+		}
+		return 2
+	}})
+	vfQuiesce()
+	ls := NewLoadingStore(s)
+	fail := errors.New("backend down")
+	ls.Loader(func(ctx context.Context, key uint64) (Loaded[uint64], error) { return Loaded[uint64]{}, fail })
+	_, err := ls.Get(context.Background(), 1)
+	vfReach("failed-load-returned")
+	vfAssert("loader-error-reaches-the-caller", err == fail)
+	vfAssert("cost-function-not-applied-to-a-failed-load", costCalls == 0)
+	_, present := s.shards[zzIndex(s, 1)].hashmap[1]
+	vfAssert("failed-load-not-cached", !present)
+	ls.Loader(func(ctx context.Context, key uint64) (Loaded[uint64], error) { return Loaded[uint64]{Value: 7}, nil })
+	v, err2 := ls.Get(context.Background(), 1)
+	vfAssert("next-get-loads-again", err2 == nil && v == 7 && costCalls == 1)
+	s.Wait()
+	e, ok := s.shards[zzIndex(s, 1)].hashmap[1]
+	vfAssert("loaded-value-weighed-by-the-cost-function", ok && e.weight.Load() == 2 && e.policyWeight == 2)
+}
